@@ -24,7 +24,7 @@ RULE = (
     "Hypothesis; unsigned/signed varint/varlong exhaustive below 2^16 (quick) / 2^21 (thorough) + every power-of-two "
     "neighbourhood up to the domain limit + Hypothesis; every byte string of length <=2 (quick; <=3 thorough) as varint "
     "input to all four varint readers vs the reference decoder; overlong (5/10 continuation bytes) -> ValueError; "
-    "strings/bytes/arrays in legacy and compact form at lengths 0,1,126..129,16383,16384,32767 and null, first "
+    "strings/bytes/arrays in legacy and compact form at lengths 0,1,126..129,16383,16384,32767 and null (bytes also at 65535/65536, 2097150..2097153 and 1..48 MiB block multiples), first "
     "out-of-range legacy length must raise; UUIDs incl. zero; every shipped error code; durations and timestamps by "
     "boundaries; out-of-domain values for fixed-width writers must raise without emitting bytes. Non-trivial = value at "
     "or next to a byte-length/sign/width boundary or limit; distinct by (function, value)."
@@ -467,6 +467,43 @@ def section_strings(t: Tally, ctx: Ctx):
                 elif v is not None and "nullable" not in name:
                     t.fail(f"{name}:negative-length-accepted", f"{r.__name__}({data.hex()}) returned {v!r} for length prefix {bad}",
                            {"fn": name, "ref": data.hex()})
+    # large bytes values: sizes at which the compact length prefix changes width (length + 1 = 2^21, 2^28) and exact
+    # multiples of block sizes between 64 KiB and 48 MiB (chunked reads / writes); bytes and records fields may hold up
+    # to 2^31 - 1 bytes.  Compared without rendering the payload.
+    big = [65535, 65536, 2097150, 2097151, 2097152, 2097153, 1 << 20, 1 << 22, 1 << 23, 3 << 22, 1 << 24, (1 << 24) + 1, 1 << 25, 3 << 24]
+    if not ctx.quick:
+        big += [(1 << 28) - 2, (1 << 28) - 1, 1 << 26, 5 << 24]
+    for n in big:
+        raw = (b"kio-big-value-" * (n // 14 + 1))[:n]
+        compact = uvarint(n + 1) + raw
+        legacy_b = be(n, 4, True) + raw
+        for name, w, r, ref in [
+            ("compact_bytes", W.write_compact_string, R.read_compact_string_as_bytes, compact),
+            ("compact_bytes_nullable", W.write_nullable_compact_string, R.read_compact_string_as_bytes_nullable, compact),
+            ("legacy_bytes", W.write_legacy_bytes, R.read_legacy_bytes, legacy_b),
+            ("legacy_bytes_nullable", W.write_nullable_legacy_bytes, R.read_nullable_legacy_bytes, legacy_b),
+            ("read_exact", None, lambda b, n=n: R.read_exact(b, n), raw),
+        ]:
+            t.evals += 1
+            t.nontrivial.add(case_hash(("big", name, n)))
+            case = {"fn": name, "big": n}
+            if w is not None:
+                try:
+                    got = wr(w, raw)
+                    if got != ref:
+                        k = next((i for i, (a, b) in enumerate(zip(got, ref)) if a != b), min(len(got), len(ref)))
+                        t.fail(f"{name}:writer-bytes:big", f"{w.__name__}(<{n} bytes>) wrote {len(got)} bytes, the Kafka encoding has {len(ref)}; "
+                               f"first difference at offset {k}: {got[k:k + 8].hex()} vs {ref[k:k + 8].hex()}", case)
+                except Exception as e:
+                    t.fail(f"{name}:writer-raised:{type(e).__name__}:big", f"{w.__name__}(<{n} bytes>) raised {type(e).__name__}: {str(e)[:200]}", case)
+            try:
+                v, used = rd(r, ref)
+                if v != raw:
+                    t.fail(f"{name}:reader-value:big", f"reading a {n}-byte value returned {len(v) if v is not None else None} bytes / different content", case)
+                if used != len(ref):
+                    t.fail(f"{name}:reader-consumed:big", f"reading a {n}-byte value consumed {used} of {len(ref)} bytes", case)
+            except Exception as e:
+                t.fail(f"{name}:reader-raised:{type(e).__name__}:big", f"reading a complete {n}-byte value raised {type(e).__name__}: {str(e)[:200]}", case)
     n_ex = 600 if ctx.quick else 5000
 
     @hypothesis.seed(ctx.subseed("strings"))
